@@ -226,14 +226,14 @@ class Parser:
         if _maybe_index(stream.current):
             stop = int(stream.current.value)
             stream.next_token()
-            if stream.current.type_ == TokenType.COLON:
-                stream.next_token()
-        elif stream.current.type_ == TokenType.COLON:
-            stream.expect(TokenType.COLON)
+
+        # A step must be preceded by a second colon.
+        has_step_colon = stream.current.type_ == TokenType.COLON
+        if has_step_colon:
             stream.next_token()
 
         # 1 or ?
-        if _maybe_index(stream.current):
+        if has_step_colon and _maybe_index(stream.current):
             step = int(stream.current.value)
             stream.next_token()
 
